@@ -41,7 +41,16 @@ def main(tier, replay, t0):
             opt = x["opt"]
             if x.get("matrix") or not (opt.get("en") and opt.get("mv") == "glam"):
                 continue
-            if c.gen[x["id"]].get("result") != "ok":
+            g_ = c.gen[x["id"]]
+            if g_.get("result") == "panic" and not opt.get("bh"):
+                # encase on, bytemuck host-shareable off: nothing documented refuses this set,
+                # whatever the vertex switch says
+                viol.append(Violation("encase-option-set-refused", "bv" if opt.get("bv") else "-",
+                                      "generation panics for encase + glam (%s): nothing can be "
+                                      "written through encase" % g_.get("panic"),
+                                      {"case_id": c.id, "wgsl": c.wgsl, "options": opt}))
+                continue
+            if g_.get("result") != "ok":
                 continue
             base = {"case_id": c.id, "wgsl": c.wgsl, "options": opt}
             if not camp.module_ok(c.id, x["id"]):
